@@ -109,6 +109,7 @@ package openapi3
 //@   option safety-tags C20
 //@   tag C11
 //@ func (*Loader).resolveEncodingHeaders
+//@   assuming @C20 mediaType != nil
 //@   requires loader != nil && pathOK(loader, documentPath)
 //@   loop * invariant loader.IsExternalRefsAllowed == old(loader.IsExternalRefsAllowed)
 //@   loop * invariant !old(loader.IsExternalRefsAllowed) ==> extReads == old(extReads)
@@ -133,6 +134,7 @@ package openapi3
 //@   option safety-tags C20
 //@   tag C11
 //@ func (*Loader).resolveRequestBodyRef
+//@   loop 1 invariant @C20 len(#xs) > 0 ==> contentType.Examples != nil
 //@   requires loader != nil && pathOK(loader, documentPath)
 //@   loop * invariant loader.IsExternalRefsAllowed == old(loader.IsExternalRefsAllowed)
 //@   loop * invariant !old(loader.IsExternalRefsAllowed) ==> extReads == old(extReads)
@@ -145,6 +147,7 @@ package openapi3
 //@   option safety-tags C20
 //@   tag C11
 //@ func (*Loader).resolveResponseRef
+//@   loop 2 invariant @C20 len(#xs) > 0 ==> contentType.Examples != nil
 //@   requires loader != nil && pathOK(loader, documentPath)
 //@   loop * invariant loader.IsExternalRefsAllowed == old(loader.IsExternalRefsAllowed)
 //@   loop * invariant !old(loader.IsExternalRefsAllowed) ==> extReads == old(extReads)
@@ -169,6 +172,7 @@ package openapi3
 //@   option safety-tags C20
 //@   tag C11
 //@ func (*Loader).resolveSecuritySchemeRef
+//@   assuming @C20 component != nil
 //@   requires loader != nil && pathOK(loader, documentPath)
 //@   loop * invariant loader.IsExternalRefsAllowed == old(loader.IsExternalRefsAllowed)
 //@   loop * invariant !old(loader.IsExternalRefsAllowed) ==> extReads == old(extReads)
@@ -181,6 +185,8 @@ package openapi3
 //@   option safety-tags C20
 //@   tag C11
 //@ func (*Loader).resolveExampleRef
+//@   preserves @C20 MediaType.Examples
+//@   assuming @C20 component != nil
 //@   requires loader != nil && pathOK(loader, documentPath)
 //@   loop * invariant loader.IsExternalRefsAllowed == old(loader.IsExternalRefsAllowed)
 //@   loop * invariant !old(loader.IsExternalRefsAllowed) ==> extReads == old(extReads)
@@ -205,6 +211,7 @@ package openapi3
 //@   option safety-tags C20
 //@   tag C11
 //@ func (*Loader).resolveLinkRef
+//@   assuming @C20 component != nil
 //@   requires loader != nil && pathOK(loader, documentPath)
 //@   loop * invariant loader.IsExternalRefsAllowed == old(loader.IsExternalRefsAllowed)
 //@   loop * invariant !old(loader.IsExternalRefsAllowed) ==> extReads == old(extReads)
@@ -226,7 +233,7 @@ package openapi3
 //@   preserves @C11 Loader.IsExternalRefsAllowed, url.URL.Scheme, url.URL.Opaque, url.URL.Host, url.URL.Path, url.URL.RawPath, url.URL.RawQuery
 //@   preserves @C11 rootURL
 //@   ensures [no-external-read] !old(loader.IsExternalRefsAllowed) ==> extReads == old(extReads)
-//@   option safety-tags C20
+//@   option safety-tags none
 //@   tag C11
 //@ func (*Loader).resolveComponent
 //@   requires loader != nil && pathOK(loader, path)
@@ -332,3 +339,41 @@ package openapi3
 //@   modifies nothing
 //@   ensures [rfc6901-order] result == replaceAll(replaceAll(ref, "~1", "/"), "~0", "~")
 //@   tag C02
+
+// (C20) the nil-safe emptiness test every resolver starts with
+//@ func (*CallbackRef).isEmpty
+//@   modifies nothing
+//@   ensures result == (x == nil || (x.Ref == "" && x.Value == nil))
+//@   tag C20
+//@ func (*ExampleRef).isEmpty
+//@   modifies nothing
+//@   ensures result == (x == nil || (x.Ref == "" && x.Value == nil))
+//@   tag C20
+//@ func (*HeaderRef).isEmpty
+//@   modifies nothing
+//@   ensures result == (x == nil || (x.Ref == "" && x.Value == nil))
+//@   tag C20
+//@ func (*LinkRef).isEmpty
+//@   modifies nothing
+//@   ensures result == (x == nil || (x.Ref == "" && x.Value == nil))
+//@   tag C20
+//@ func (*ParameterRef).isEmpty
+//@   modifies nothing
+//@   ensures result == (x == nil || (x.Ref == "" && x.Value == nil))
+//@   tag C20
+//@ func (*RequestBodyRef).isEmpty
+//@   modifies nothing
+//@   ensures result == (x == nil || (x.Ref == "" && x.Value == nil))
+//@   tag C20
+//@ func (*ResponseRef).isEmpty
+//@   modifies nothing
+//@   ensures result == (x == nil || (x.Ref == "" && x.Value == nil))
+//@   tag C20
+//@ func (*SchemaRef).isEmpty
+//@   modifies nothing
+//@   ensures result == (x == nil || (x.Ref == "" && x.Value == nil))
+//@   tag C20
+//@ func (*SecuritySchemeRef).isEmpty
+//@   modifies nothing
+//@   ensures result == (x == nil || (x.Ref == "" && x.Value == nil))
+//@   tag C20
